@@ -535,6 +535,7 @@ pub fn generate(seed: u64, thorough: bool, emit: &mut dyn FnMut(String)) {
     generate_round3(seed, thorough, emit);
     generate_round4(seed, thorough, emit);
     generate_round5(seed, thorough, emit);
+    generate_round6(seed, thorough, emit);
 }
 
 // ---------------------------------------------------------------- hardening families (scale, size, ties, rare paths)
@@ -1260,4 +1261,142 @@ fn generate_round5(seed: u64, thorough: bool, emit: &mut dyn FnMut(String)) {
             }
         }
     }
+}
+
+// ---------------------------------------------------------------- round-6 families: block boundaries and exact relations
+
+/// (x - r) * (a_0 + a_1 x + ... + a_{m-1} x^{m-1}) for r = +1 / -1 and small positive integers a_k that neither repeat with
+/// a short period nor read the same backwards: integer coefficients (every partial sum is exact in binary64, so g(r) is
+/// exactly 0 in whatever order the terms are added), degree m, no other root of the same sign as r
+fn boundary_poly(m: usize, r: f64, salt: usize) -> Vec<f64> {
+    let a: Vec<f64> = (0..m).map(|k| (1 + (k * k + 3 * k + salt) % 7) as f64).collect();
+    let mut g = vec![0.0; m + 1];
+    for (k, ak) in a.iter().enumerate() {
+        g[k + 1] += ak;
+        g[k] -= r * ak;
+    }
+    g
+}
+
+fn horner(cs: &[f64], x: f64) -> f64 {
+    cs.iter().rev().fold(0.0, |acc, c| acc * x + c)
+}
+
+fn generate_round6(seed: u64, thorough: bool, emit: &mut dyn FnMut(String)) {
+    let mut rng = Rng::new(seed ^ 0xC06_0006_B10C);
+    let mut sizes: Vec<usize> = vec![];
+    for b in [16usize, 32, 64, 128, 256] {
+        sizes.extend([b - 1, b, b + 1, b + 2, 2 * b + 1]);
+    }
+    sizes.sort();
+    sizes.dedup();
+    // ---- (O1) THE DEGREE / NUMBER OF TERMS AT A BLOCK BOUNDARY: degree 15..18, 31..34, 63..66, 127..130, 255..258, 513 with
+    //      the root at +1 or -1 and a bracket of width ~5/n around it, so that EVERY term is alive in the value (x^n stays
+    //      within e^-3..e^2): a chunk of coefficients that is dropped, doubled or shifted moves the sign changes and the
+    //      residual.  Root mode and extrema mode (the antiderivative has one more coefficient), both polynomial types.
+    for (i, &n) in sizes.iter().enumerate() {
+        let reps = if thorough { 6 } else { 2 };
+        for j in 0..reps {
+            for extrema in [false, true] {
+                // the target g has degree n - 1 or n (n or n + 1 coefficients; in extrema mode the stored polynomial has one more)
+                let m = if extrema == (j % 2 == 0) { n - 1 } else { n };
+                let r = if (i + j) % 2 == 0 { 1.0 } else { -1.0 };
+                let mut g = boundary_poly(m, r, i + j);
+                let nf = n as f64;
+                let (a, b) = match j % 3 {
+                    0 => (r - 3.0 / nf, r + 2.0 / nf),
+                    1 => (r - 2.0 / nf, r + 1.0 / nf),
+                    _ => (r, r + 2.0 / nf),
+                };
+                let (lo, hi) = if a <= b { (a, b) } else { (b, a) };
+                moderate(&mut g, lo.abs().max(hi.abs()), if extrema { 1.0 } else { 1000.0 });
+                let cs = if extrema { antiderivative_plain(&g, (j as f64) - 2.0) } else { g };
+                let simple = (i + j) % 2 == 0;
+                let p = if simple { simple_of(&cs) } else { inter_of(&cs, false) };
+                let init = match j % 4 {
+                    0 => lo,
+                    1 => hi,
+                    2 => lo / 2.0 + hi / 2.0,
+                    _ => lo + (hi - lo) * rng.unit(),
+                };
+                for (tol, cap) in [(1e-9, 3000usize), (1e-4, 200)] {
+                    emit_req(emit, &p, lo, init, hi, tol, cap, extrema);
+                }
+            }
+        }
+    }
+    // ---- (O2 + P) THE NUMBER OF PASSES AT A BLOCK BOUNDARY, AND A TOLERANCE EXACTLY EQUAL TO A COMPUTED ERROR: the bisection
+    //      of a well-conditioned target is replayed here (plain halving, signs from Horner's rule) and the relative step
+    //      e_k = |x_k - x_{k-1}| / x_k * 100 of pass k = 15..18, 31..34, 47..50 is requested as the tolerance: exactly e_k (the
+    //      test is strict: one more pass), one ulp above (stops at pass k), one ulp below and 2^-40 relative away; with an
+    //      iteration cap of exactly k - 1, k, k + 1, k + 2 (the cap is reached / just not reached) and an ample one.
+    let targets: [(&[f64], f64, f64); 5] = [
+        (&[-2.0, 0.0, 1.0], 1.0, 2.0),           // x^2 - 2 on [1, 2]
+        (&[-3.0, 1.0, 0.0, 1.0], 0.5, 3.25),     // x^3 + x - 3
+        (&[5.0, -2.0], 1.0, 4.0),                // 5 - 2x (falling)
+        (&[-0.3, 1.0], -3.0, 1.0),               // root 0.3, bracket across 0
+        (&[2.0, 3.0, 1.0], -1.75, 0.0),          // (x+1)(x+2) on [-1.75, 0]: negative root
+    ];
+    let passes: Vec<usize> = if thorough { vec![3, 7, 8, 9, 15, 16, 17, 18, 31, 32, 33, 34, 47, 48, 49, 50] } else { vec![8, 15, 16, 17, 18, 31, 32, 33, 34, 48] };
+    for (ti, (cs, lo0, hi0)) in targets.iter().enumerate() {
+        // replay
+        let (mut lo, mut hi) = (*lo0, *hi0);
+        let mut x = lo;
+        let mut errs: Vec<f64> = vec![];
+        for k in 0..52usize {
+            let old = x;
+            x = (lo + hi) / 2.0;
+            let e = if k > 0 && x != 0.0 { ((x - old).abs() / x) * 100.0 } else { 100.0 };
+            errs.push(e.abs());
+            let fl = horner(cs, lo);
+            let fx = horner(cs, x);
+            if fx == 0.0 || fl == 0.0 {
+                break;
+            }
+            if (fl < 0.0) != (fx < 0.0) { hi = x } else { lo = x }
+        }
+        for &k in &passes {
+            if k >= errs.len() {
+                continue;
+            }
+            let e = errs[k];
+            if !(e > 0.0) || !e.is_finite() {
+                continue;
+            }
+            let tols = [e, next_up(e), next_down(e), e * (1.0 + pow2(-40)), e * (1.0 - pow2(-40))];
+            for (vi, tol) in tols.iter().enumerate() {
+                for cap in [k.saturating_sub(1), k, k + 1, k + 2, 3000] {
+                    if !thorough && (vi + cap + ti) % 2 == 1 && cap != 3000 {
+                        continue;
+                    }
+                    for extrema in [false, true] {
+                        let pc = if extrema { antiderivative_plain(cs, 1.0) } else { cs.to_vec() };
+                        let p = if (ti + vi + k) % 2 == 0 { simple_of(&pc) } else { inter_of(&pc, false) };
+                        let init = if vi % 2 == 0 { *lo0 } else { (*lo0 + *hi0) / 2.0 };
+                        emit_req(emit, &p, *lo0, init, *hi0, *tol, cap, extrema);
+                    }
+                }
+            }
+        }
+    }
+    // ---- (P2) AN END OR A MIDPOINT WHOSE VALUE IS EXACTLY 0 / EXACTLY AT THE GATE: integer polynomials whose value at a
+    //      dyadic point is exact; the residual gate |g(x)| < 1e-4 is strict, so a constant target of exactly 1e-4, its
+    //      neighbours, and slopes that put |g(mid)| exactly on 1e-4 at the first midpoint
+    let gate = 1e-4f64;
+    for c in [gate, next_up(gate), next_down(gate), -gate, -next_down(gate), gate * (1.0 - pow2(-40)), 0.0, -0.0] {
+        for (cs, lo, hi) in [(vec![c], -1.0, 3.0), (vec![c, 0.0, 0.0], 0.5, 0.5), (vec![-c, c], 0.0, 4.0), (vec![0.0, c], -1.0, 1.0), (vec![c, c], -3.0, 1.0)] {
+            for simple in [true, false] {
+                let p = if simple { simple_of(&cs) } else { inter_of(&cs, true) };
+                for (tol, cap) in [(1e-9, 3000usize), (1.0, 3), (0.0, 64)] {
+                    emit_req(emit, &p, lo, lo, hi, tol, cap, false);
+                    emit_req(emit, &antider(&p, &cs, simple), lo, hi, hi, tol, cap, true);
+                }
+            }
+        }
+    }
+}
+
+fn antider(_p: &AnyPoly, cs: &[f64], simple: bool) -> AnyPoly {
+    let pc = antiderivative_plain(cs, -2.0);
+    if simple { simple_of(&pc) } else { inter_of(&pc, true) }
 }
